@@ -53,11 +53,14 @@ def thumb_bytes(name, size):
 class Site:
     """One wiki (the book's wiki, or the shared image repository)."""
 
-    def __init__(self, host, lang, pages, images, shared_images=None, upload_host=UPLOAD_HOST):
+    def __init__(self, host, lang, pages, images, shared_images=None, upload_host=UPLOAD_HOST, script_path="/w/",
+                 article_path="/wiki/", shared_article_base=None):
         self.host = host
         self.lang = lang
-        self.api_url = f"http://{host}/w/api.php"
-        self.base_url = f"http://{host}/w/"
+        self.api_url = f"http://{host}{script_path}api.php"
+        self.base_url = f"http://{host}{script_path}"
+        self.article_base = f"http://{host}{article_path}"
+        self.shared_article_base = shared_article_base or f"http://{COMMONS_HOST}/wiki/"
         self.file_ns = NS_NAMES[lang][6]
         self.tmpl_ns = NS_NAMES[lang][10]
         self.pages = pages  # fqtitle -> {"revs": [[revid, text], ...], "users": [...], "anon": n}
@@ -329,7 +332,7 @@ class Site:
 
     def prop_info(self, p, order, qc):
         for key, pg, text, title in order:
-            pg["fullurl"] = f"http://{self.host}/wiki/{parse.quote(title.replace(' ', '_'), safe=':')}"
+            pg["fullurl"] = f"{self.article_base}{parse.quote(title.replace(' ', '_'), safe=':')}"
 
     def prop_revisions(self, p, order, qc):
         rvprop = p.get("rvprop", "ids").split("|")
@@ -362,14 +365,14 @@ class Site:
                 continue
             partial = title.split(":", 1)[1]
             u = parse.quote(partial.replace(" ", "_"))
-            host = self.host if where == "local" else COMMONS_HOST
             pg["imagerepository"] = where
             ns_on_host = self.file_ns if where == "local" else "File"
+            desc_base = self.article_base if where == "local" else self.shared_article_base
             pg["imageinfo"] = [{
                 "url": f"http://{UPLOAD_HOST}/full/{u}",
                 "thumburl": f"http://{UPLOAD_HOST}/thumb/{u}/{width}px-{u}",
                 "thumbwidth": width, "thumbheight": width, "width": 2 * width, "height": 2 * width,
-                "descriptionurl": f"http://{host}/wiki/{ns_on_host}:{u}",
+                "descriptionurl": f"{desc_base}{ns_on_host}:{u}",
                 "sha1": hashlib.sha1(thumb_bytes(partial, rec["size"])).hexdigest(), "size": rec["size"],
                 "user": (rec.get("users") or ["Uploader"])[0], "comment": "",
             }]
@@ -409,11 +412,17 @@ class World:
         file_ns = NS_NAMES[lang][6]
         for n, r in local_imgs.items():
             pages[f"{file_ns}:{n}"] = {"revs": [[r["descrev"], r["desc"]]], "users": r.get("users", []), "anon": r.get("anon", 0)}
-        self.local = Site(LOCAL_HOST, lang, pages, local_imgs, shared_imgs)
+        # "farm": the shared repository is another wiki of the same host, under /commons/
+        farm = bool(spec.get("farm"))
+        shared_base = f"http://{LOCAL_HOST}/commons/" if farm else f"http://{COMMONS_HOST}/wiki/"
+        self.local = Site(LOCAL_HOST, lang, pages, local_imgs, shared_imgs, shared_article_base=shared_base)
         cpages = {}
         for n, r in shared_imgs.items():
             cpages[f"File:{n}"] = {"revs": [[r["descrev"], r["desc"]]], "users": r.get("users", []), "anon": r.get("anon", 0)}
-        self.commons = Site(COMMONS_HOST, "en", cpages, shared_imgs)
+        if farm:
+            self.commons = Site(LOCAL_HOST, "en", cpages, shared_imgs, script_path="/commons/", article_path="/commons/")
+        else:
+            self.commons = Site(COMMONS_HOST, "en", cpages, shared_imgs)
         self.sites = {self.local.api_url: self.local, self.commons.api_url: self.commons}
         self.downloads = []
 
@@ -488,7 +497,8 @@ class World:
 
 
 # ---------------------------------------------------------------------------------------
-WORDS = ["alpha", "beta", "gamma", "delta", "river", "stone", "cloud", "tree", "light", "wind", "Zürich", "naïve", "東京"]
+WORDS = ["alpha", "beta", "gamma", "delta", "river", "stone", "cloud", "tree", "light", "wind", "Zürich", "naïve", "東京",
+         "dos\r\nline", "mac\rline", "tab\there", "two\n\nparagraphs"]
 USERS = ["Alice", "Bob", "Carol", "Dave", "Eve", "Mallory", "Trent", "Peggy", "Иван", "José"]
 BOTS = ["CleanupBot", "xqbot", "ArchiveBOT", "SineBot"]
 
@@ -637,4 +647,5 @@ def gen_spec(rng, size="small"):
             it["rev"] = None
     # a metabook carries its revision ids either all as integers or all as strings (JSON metabooks,
     # collection pages)
-    return {"lang": lang, "pages": pages, "images": images, "metabook": mb, "revs_as_str": rng.random() < 0.3}
+    return {"lang": lang, "pages": pages, "images": images, "metabook": mb, "revs_as_str": rng.random() < 0.3,
+            "farm": rng.random() < 0.3}
